@@ -56,7 +56,7 @@ type Profile struct {
 	Disabled map[string]bool
 }
 
-var allFeatures = []string{"closure", "loop", "goto", "pcall", "xpcall", "error", "rtfault", "coroutine", "wrap", "meta", "sort", "gsub", "fenv", "hostcall", "hostpcall", "clobber", "multiassign", "tailcall", "shadow", "factory", "level2", "nested_yield", "tail_yield", "fieldcall", "selfstatus", "yield_boundary"}
+var allFeatures = []string{"closure", "loop", "goto", "pcall", "xpcall", "error", "rtfault", "coroutine", "wrap", "meta", "sort", "gsub", "fenv", "hostcall", "hostpcall", "clobber", "multiassign", "tailcall", "shadow", "factory", "level2", "nested_yield", "tail_yield", "fieldcall", "selfstatus", "yield_boundary", "repetition"}
 
 // ProfileFor returns the generator profile of an engine.
 func ProfileFor(name string) *Profile {
